@@ -255,6 +255,15 @@ def c11_6(ctx):
     ctx.count(1)
     if not any(isinstance(s, ast.Assign) and U(s.targets[0]) == 'by' and N(s.value) == 'as_tuple(by)' for s in f.body):
         ctx.fail(f, f.node, 'the key columns are not normalised with as_tuple (self[by] must be a list of key TUPLES)')
+    for h in (f, r.fn('_dictable:dictable.groupby')):
+        ctx.count(1, h.where())
+        norm = [s for s in body_nodes(h.node) if isinstance(s, ast.Assign) and U(s.targets[0]) == 'by' and N(s.value) == 'as_tuple(by)']
+        if norm:
+            for s in body_nodes(h.node):        # TYPESTATE: once a tuple of column names, always a tuple (`k not in by`, type(self)(xs, by), self[by] rely on it)
+                if isinstance(s, (ast.Assign, ast.AugAssign)) and 'by' in [U(t) for t in (s.targets if isinstance(s, ast.Assign) else [s.target])] and s.lineno > norm[-1].lineno \
+                        and not (isinstance(s, ast.Assign) and isinstance(s.value, ast.Call) and call_name(s.value) == 'as_tuple'):
+                    ctx.fail(h, s, 'the key columns are rebound after as_tuple (`%s`): with a bare string `k not in by` becomes a SUBSTRING test and columns whose name is part of the key name are dropped' % U(s)[:60],
+                             witness="dictable(key=[1], k=[2]).listby('key') loses column k")
     g = r.fn('_dictable:dictable.groupby')
     expect_guards(ctx, g, [('len(self) == 0', 'return self.copy()', 'an empty table has nothing to group'),
                            ('len(by) == 0', 'by = self.keys()', 'no key given means all columns')], where=g.body)
